@@ -135,6 +135,42 @@ Fixpoint chain (tables : list string) (cont : option Z) (rs : list Z)
          end
   end.
 
+(* The embedding pattern: ONE application object (hence one criterion) passed as
+   parent_application to a run and then to its continuations.  starting_id and rep_count are
+   never reset, so the object enters the next run in the state the previous run left it in. *)
+Fixpoint final_app (rs : list Z) (a : app) (m : idm) : app :=
+  match rs with
+  | [] => a
+  | r :: rest =>
+    let m1 := generate_ids m r in
+    match ensure_progress a m1 with
+    | Err _ => a
+    | Ok a1 =>
+      let '(a2, fin) := check_finished a1 m1 in
+      if fin then a2 else final_app rest a2 m1
+    end
+  end.
+
+Definition run_with (tables : list string) (a : app) (cont : option Z) (rs : list Z) : outcome :=
+  match interp_init a tables with
+  | Err e => Failed 0 e
+  | Ok _ => loop rs 0 a (init_idm cont)
+  end.
+
+Fixpoint chain_reuse (tables : list string) (a : app) (cont : option Z) (rs : list Z)
+         (caps : list nat) : list outcome :=
+  match caps with
+  | [] => []
+  | cap :: more =>
+    let o := run_with tables a cont (firstn cap rs) in
+    o :: match o with
+         | Stopped n last =>
+           chain_reuse tables (final_app (firstn cap rs) a (init_idm cont)) (Some last)
+                       (skipn n rs) more
+         | _ => []
+         end
+  end.
+
 (* -------- correspondence cases -------- *)
 
 Definition outcome_eqb (x y : outcome) : bool :=
@@ -150,12 +186,17 @@ Inductive case :=
 | CDirect (sc : option criteria) (cont : option Z) (rs : list Z) (expected : outcome)
 (* end to end through snowfakery.data_generator.generate *)
 | CChain (tables : list string) (rs : list Z) (runs : list (option criteria * nat))
-         (expected : list outcome).
+         (expected : list outcome)
+(* the same, one application object reused for all runs of the session *)
+| CChainReuse (tables : list string) (rs : list Z) (sc : option criteria) (caps : list nat)
+              (expected : list outcome).
 
 Definition check_case (c : case) : bool :=
   match c with
   | CDirect sc cont rs e => outcome_eqb (loop rs 0 (new_app sc) (init_idm cont)) e
   | CChain tables rs runs e => list_eqb outcome_eqb (chain tables None rs runs) e
+  | CChainReuse tables rs sc caps e =>
+    list_eqb outcome_eqb (chain_reuse tables (new_app sc) None rs caps) e
   end.
 
 (* -------- vocabulary of the theorem statements -------- *)
